@@ -58,7 +58,7 @@ def units_for(prop, tier, gdir):
                     continue
                 notes['functions'].append(fn)
                 for case in case_list(sp.funcs[fn], tier):
-                    units.append(engine.Unit(cn, fn, 2 if tier == 'quick' else 3, sp, infos[cn], gen, timeout=3600, sym=True, case=case, lockcov=True))
+                    units.append(engine.Unit(cn, fn, 2 if tier == 'quick' else 3, sp, infos[cn], gen, timeout=3600, sym=True, case=case, lockcov=True, rangelen=1 if tier == 'quick' else 2))
         return units, notes
     if prop == 'C18':
         import rel
@@ -72,8 +72,13 @@ def units_for(prop, tier, gdir):
                 if cn in ('ut_map', 'ut_set'):
                     pf = rel.CONF[cn][0]
                     cases = [(0, '%s_ttl(&s1) > 0' % pf), (1, '!(%s_ttl(&s1) > 0)' % pf)]
+                # quick: the three heaviest containers compare ONE element for insert_range (the loop is uniform),
+                # lfuda at the default ratio; thorough: two elements, capacity <= 3, all ratios
+                heavy = cn in ('tlru_cache', 'utlru_cache', 'lfuda_cache') and op[0].startswith('insert')
+                rlen = 1 if (tier == 'quick' and heavy) else rel.RLEN
+                xa = 's1.m_dynamic_age_ratio == 0.5f' if (tier == 'quick' and cn == 'lfuda_cache') else None
                 for case in cases:
-                    units.append(rel.RelUnit(cn, op, 2 if tier == 'quick' else 3, sp, infos[cn], gen, timeout=3000 if tier == 'quick' else 7200, case=case))
+                    units.append(rel.RelUnit(cn, op, 2 if tier == 'quick' else 3, sp, infos[cn], gen, timeout=800 if tier == 'quick' else 7200, case=case, rlen=rlen, extra_assume=xa))
         return units, notes
     for cn, sp in specs.items():
         if prop not in sp.props:
@@ -92,7 +97,7 @@ def units_for(prop, tier, gdir):
             for mc in ([int(sp.funcs[fn].opts['quickcap'])] if tier == 'quick' and 'quickcap' in sp.funcs[fn].opts else caps):
                 to = int(sp.funcs[fn].opts.get('timeout', '1500' if tier == 'quick' else '7200'))
                 for case in case_list(sp.funcs[fn], tier):
-                    units.append(engine.Unit(cn, fn, mc, sp, infos[cn], gen, timeout=to, sym=cfg['sym'], case=case))
+                    units.append(engine.Unit(cn, fn, mc, sp, infos[cn], gen, timeout=to, sym=cfg['sym'], case=case, rangelen=1 if tier == 'quick' else 2))
             if tier == 'thorough' and sp.funcs[fn].opts.get('modular') == 'yes':
                 units.append(engine.Unit(cn, fn, 2, sp, infos[cn], gen, timeout=3600, modular=True))
     return units, notes
